@@ -86,6 +86,11 @@ Inductive err :=
 | EReadPack | EPackSize | EPackHash | EHdrLen | EHdrDecrypt | EHdrMismatch
 | EBlobDecrypt | EBlobUnzipPanic | EBlobLength | EBlobHash.
 
+(* ReadSubsetOption::IdSubSet((n, m)): the pack whose id starts with the u32 [pid] is read iff ...
+   (the comparison is regenerated from check.rs) *)
+Definition subset_selects (n m pid : N) : bool :=
+  (pid mod m) =? (if x_subset_reduces_n then n mod m else n).
+
 Section Repo.
   Variable B : Type.
   Variable hash : B -> id.
@@ -104,7 +109,8 @@ Section Repo.
     sp_segs : list seg }. (* the ranges that authenticate *)
 
   Record state := mk_state {
-    st_meta_ok : bool;            (* every index and snapshot file decrypts and parses *)
+    st_meta_ok : bool;            (* every snapshot file decrypts and parses *)
+    st_index_ok : bool;           (* every index file decrypts and parses *)
     st_snap_names_ok : bool;      (* the name of every snapshot file is the hash of its stored bytes *)
     st_packs : list spack;        (* listing of FileType::Pack *)
     st_index : list ifile;        (* the index files *)
@@ -139,7 +145,18 @@ Section Repo.
      all its blobs are filed under the type of the pack's FIRST blob --- *)
   Definition entries_of_pack (p : ipack) : list (btype * id * iblob) :=
     map (fun b => (ptype p, ip_id p, b)) (ip_blobs p).
-  Definition index_packs : list ipack := flat_map if_packs (st_index st).
+  (* CHECK's own lookup index (check_packs: `index_collector.extend(index.packs.clone())`): which
+     sections of the index files it is fed with is regenerated from check.rs *)
+  Definition index_packs : list ipack :=
+    if x_check_index_includes_marked
+    then flat_map (fun f => if_packs f ++ if_del f) (st_index st)
+    else flat_map if_packs (st_index st).
+  (* RESTORE's index (GlobalIndex::new_from_collector: `collector.extend(index?.1.packs)`),
+     regenerated from index.rs *)
+  Definition restore_packs : list ipack :=
+    if x_restore_index_includes_marked
+    then flat_map (fun f => if_packs f ++ if_del f) (st_index st)
+    else flat_map if_packs (st_index st).
   Definition all_packs : list (ipack * bool) :=
     flat_map (fun f => map (fun p => (p, false)) (if_packs f) ++ map (fun p => (p, true)) (if_del f))
              (st_index st).
@@ -148,6 +165,12 @@ Section Repo.
     btype_eqb (fst (fst e)) t && (ib_id (snd e) =? i).
   Definition candidates (t : btype) (i : id) : list (btype * id * iblob) :=
     filter (key_match t i) entries.
+  Definition rentries : list (btype * id * iblob) := flat_map entries_of_pack restore_packs.
+  Definition rcandidates (t : btype) (i : id) : list (btype * id * iblob) :=
+    filter (key_match t i) rentries.
+  (* restore's index answering with the first entry in file order (one admissible selector) *)
+  Definition rlookup (t : btype) (i : id) : option (id * iblob) :=
+    match rcandidates t i with [] => None | e :: _ => Some (snd (fst e), snd e) end.
   (* binary search over entries sorted unstably by id: some entry with the key; the model takes the
      first in file order, the theorems quantify over the choice (see [selector]) *)
   Definition lookup (t : btype) (i : id) : option (id * iblob) :=
@@ -299,6 +322,8 @@ Section Repo.
   (* check_repository with read_data = true, read_data_subset = All, no cache, no hot store *)
   Definition check (fuel : nat) : option (list err) :=
     if negb (st_meta_ok st) then Some [EMeta] else
+    (* `let index = index?.1;` in check_packs: an unreadable index file makes check return Err *)
+    if negb (st_index_ok st) && x_unreadable_index_aborts_check then Some [EMeta] else
     match check_trees fuel with
     | None => None
     | Some (et, used) =>
@@ -315,8 +340,10 @@ Section Repo.
     match sel t i with Some (p, b) => read_blob p b | None => None end.
   Definition sel_valid (sel : selector) : Prop :=
     forall t i, match sel t i with
-                | Some (p, b) => In (t, p, b) (candidates t i)
-                | None => candidates t i = [] end.
+                | Some (p, b) => In (t, p, b) (rcandidates t i)
+                | None => rcandidates t i = [] end.
+  (* GlobalIndex::new aborts on an index file it cannot read: then nothing restores *)
+  Definition restore_opens : bool := st_index_ok st || negb x_unreadable_index_aborts_restore.
 
   (* executable: everything restore reads below tree [i] is readable (dump/restore do not compare
      hashes); [Some true] = all read, [Some false] = some read fails, [None] = fuel exhausted *)
@@ -406,7 +433,7 @@ Section Repo.
     | [] => true
     | e :: r => negb (existsb (key_match (fst (fst e)) (ib_id (snd e))) r) && nodup_keys_aux r
     end.
-  Definition nodup_keys : bool := nodup_keys_aux entries.
+  Definition nodup_keys : bool := nodup_keys_aux rentries.
 
 End Repo.
 
@@ -414,5 +441,5 @@ Arguments PBlob {B}. Arguments PHeader {B}.
 Arguments mk_seg {B}. Arguments sg_off {B}. Arguments sg_len {B}. Arguments sg_pl {B}.
 Arguments mk_spack {B}. Arguments sp_id {B}. Arguments sp_size {B}. Arguments sp_hash {B}.
 Arguments sp_trailer {B}. Arguments sp_segs {B}.
-Arguments mk_state {B}. Arguments st_meta_ok {B}. Arguments st_snap_names_ok {B}. Arguments st_packs {B}. Arguments st_index {B}.
+Arguments mk_state {B}. Arguments st_meta_ok {B}. Arguments st_index_ok {B}. Arguments st_snap_names_ok {B}. Arguments st_packs {B}. Arguments st_index {B}.
 Arguments st_roots {B}.
